@@ -296,6 +296,19 @@ class SymWorld(World):
                 core.STATS.queries += 1
                 self._record(nm, 'unsat-normal-form')
                 return
+            if core.INV:
+                keys = list(d.t)
+                cl = core.clear_inverses([x for k in keys for x in d.t[k]])
+                d2 = SCx({k: (cl[2 * i], cl[2 * i + 1]) for i, k in enumerate(keys)}).clean()
+                if not d2.t:
+                    core.STATS.queries += 1
+                    self._record(nm, 'unsat-normal-form')
+                    return
+            else:
+                d2 = d
+            if any(k.t.get((), Fraction(0)).denominator > 1 for k in d2.t) and core.roots_linear_zero(d2):
+                self._record(nm, 'unsat')
+                return
             dr, di = core.lower_cx(d)
             neg = z3.Or(dr != 0, di != 0)
             self._query(nm, neg, lambda env, d=d: abs(core.evalf(d, env)) > 1e-6)
@@ -317,6 +330,10 @@ class SymWorld(World):
                 return
             if d.is_const():
                 self._record(nm, 'concrete-fail', {'got': repr(a), 'want': repr(b)})
+                return
+            if core.INV and core.clear_inverses([d])[0].is_zero():
+                core.STATS.queries += 1
+                self._record(nm, 'unsat-normal-form')
                 return
             neg = core.zr(an.p) != core.zr(bn.p)
             self._query(nm, neg, lambda env, d=d: abs(d.evalf(env)) > 1e-6)
